@@ -632,6 +632,7 @@ class C11(Prop):
         if variant == "seq":
             plan["mismatch"] = t.draw(8) == 7
             plan["ops"] = gen_ops(t)
+            plan["via_session"] = t.choice([None, None, None, "returns", "raises"])
         elif variant == "race":
             # a receive-side task (accept, then an iterator whose loop body also calls receive(), or typed receives) races with a
             # send-side task (close / send / raw close) that may act before, during or after accept(); judged by the global
@@ -734,6 +735,28 @@ class C11(Prop):
                         note("writer", i, op[0], out)
 
                 tasks = [loop.create_task(recv_side(), name="reader"), loop.create_task(send_side(), name="writer")]
+            elif plan["variant"] == "seq" and plan.get("via_session"):
+                # the documented entry point: the wrapper is created by websocket_session() and handed to the view, which may blow up
+                from baize.asgi import websocket_session
+                ctx.probe("via_websocket_session")
+
+                class ViewFailure(Exception):
+                    pass
+
+                async def view(ws):
+                    run.ws = ws
+                    for i, (op, dl) in enumerate(plan["ops"]):
+                        await run.step("main", i, op, dl)
+                    if plan["via_session"] == "raises":
+                        ctx.fault("view_raises")
+                        raise ViewFailure("the view failed after its last call")
+
+                async def prog():
+                    try:
+                        await websocket_session(view)(run.peer.scope, run.peer.receive, run.peer.send)
+                    except ViewFailure:
+                        pass
+                tasks = [loop.create_task(prog(), name="main")]
             elif plan["variant"] == "seq":
                 async def prog():
                     for i, (op, dl) in enumerate(plan["ops"]):
